@@ -606,6 +606,16 @@ where
 
                     // all messages are dealt with
                     None => {
+                        // Requests that are already in the read buffer were left undecoded if the
+                        // message queue was full when the buffer was last looked at. Nothing will
+                        // wake the task for them (the peer may be waiting for their responses), so
+                        // decode them now that the queue has room.
+                        if !this.read_buf.is_empty() && self.as_mut().poll_request(cx)? {
+                            continue 'res;
+                        }
+
+                        let this = self.as_mut().project();
+
                         // start keep-alive only if request payload is fully read/drained
                         this.flags.set(
                             Flags::KEEP_ALIVE,
